@@ -81,7 +81,11 @@ type Summary struct {
 func sigHash(tr []PointRec, upto int) (h [8]byte) {
 	hh := sha256.New()
 	for i := 0; i < upto && i < len(tr); i++ {
-		fmt.Fprintf(hh, "%d/%d/%d/%d;", tr[i].Kind, tr[i].N, tr[i].NT, tr[i].Sig)
+		k := tr[i].Kind
+		if k == KTick {
+			k = KThread // a tick is one of the alternatives of a thread point: same offer, different choice
+		}
+		fmt.Fprintf(hh, "%d/%d/%d/%d;", k, tr[i].N, tr[i].NT, tr[i].Sig)
 	}
 	copy(h[:], hh.Sum(nil)[:8])
 	return
